@@ -59,9 +59,9 @@ mut("C10-mask-log", "seccomp_linux.go", "syscall.Syscall(unix.SYS_SECCOMP, op, u
 mut("C11-unlock-early", "seccomp_linux.go", "\tif err = seccomp(seccompSetModeFilter,", "\truntime.UnlockOSThread()\n\tif err = seccomp(seccompSetModeFilter,", ["C11"])
 mut("C11-lock-only-tsync", "seccomp_linux.go", "\truntime.LockOSThread()\n\tdefer runtime.UnlockOSThread()", "\tif filter.Flag&FilterFlagTSync == 0 {\n\t\truntime.LockOSThread()\n\t\tdefer runtime.UnlockOSThread()\n\t}", ["C11"])
 # ---- C12
-mut("C12-changed-number", "arch/zsyscalls.go", "\t318:    \"getrandom\",", "\t319:    \"getrandom\",", ["C12"])
+mut("C12-changed-number", "arch/zsyscalls.go", "\t318: \"getrandom\",\n\t319: \"memfd_create\",", "\t319: \"getrandom\",\n\t318: \"memfd_create\",", ["C12"], count=2)
 mut("C12-alias-wrong", "arch/info.go", "\t\"arm64\":   AARCH64,", "\t\"arm64\":   ARM,", ["C12"])
-mut("C12-no-tolower", "arch/info.go", "name = strings.ToLower(name)", "name = strings.TrimSpace(name)", ["C12"])
+mut("C12-no-tolower", "arch/info.go", "name = strings.ToLower(name)", "_ = strings.ToLower(name)", ["C12"])
 # ---- C13
 mut("C13-memoise-global", "filter.go", "func (p *Policy) Validate() error {", "var validated = map[Action]bool{}\n\nfunc (p *Policy) Validate() error {\n\tvalidated[p.DefaultAction] = true", ["C13"])
 mut("C13-action-string-order", "filter.go", "\tname, found := actionNames[a]\n\tif found {\n\t\treturn name\n\t}\n\treturn \"unknown\"", "\tfor k, name := range actionNames {\n\t\tif k&a == k && k != 0 {\n\t\t\treturn name\n\t\t}\n\t}\n\tname, found := actionNames[a]\n\tif found {\n\t\treturn name\n\t}\n\treturn \"unknown\"", ["C13", "C14"])
@@ -73,7 +73,7 @@ mut("C15-no-exit-on-load-error", "cmd/sandbox/main.go", "\t\tfmt.Fprintf(os.Stde
 mut("C15-nnp-hardcoded", "cmd/sandbox/main.go", "NoNewPrivs: noNewPrivs,", "NoNewPrivs: true,", ["C15"])
 # ---- C16
 mut("C16-no-reset-at-text", "cmd/seccomp-profiler/disasm/disasm.go", "\t\t\tinstructions = instructions[:0]\n\t\t\tcontinue", "\t\t\tcontinue", ["C16"])
-mut("C16-partial-on-error", "cmd/seccomp-profiler/disasm/disasm.go", "\t\treturn nil, fmt.Errorf(\"failed to read objdump file: %v\", err)", "\t\treturn syscalls, nil", ["C16"])
+mut("C16-partial-on-error", "cmd/seccomp-profiler/disasm/disasm.go", "\tif err := s.Err(); err != nil {\n\t\treturn nil, fmt.Errorf(\"failed to read objdump file: %v\", err)", "\tif err := s.Err(); err != nil && len(syscalls) == 0 {\n\t\treturn nil, fmt.Errorf(\"failed to read objdump file: %v\", err)", ["C16"])
 # ---- C17
 mut("C17-write-in-place", "cmd/seccomp-profiler/main.go", "os.CreateTemp(filepath.Dir(dumpFile), filepath.Base(dumpFile)+\".tmp\")", "os.Create(dumpFile)", ["C17"])
 mut("C17-rename-before-flush", "cmd/seccomp-profiler/main.go", "\tif err = out.Flush(); err != nil {\n\t\treturn \"\", err\n\t}\n\tif err = f.Close(); err != nil {\n\t\treturn \"\", err\n\t}\n\tif err = os.Rename(f.Name(), dumpFile); err != nil {\n\t\treturn \"\", err\n\t}", "\tif err = os.Rename(f.Name(), dumpFile); err != nil {\n\t\treturn \"\", err\n\t}\n\tif err = out.Flush(); err != nil {\n\t\treturn \"\", err\n\t}\n\tif err = f.Close(); err != nil {\n\t\treturn \"\", err\n\t}", ["C17"])
